@@ -56,3 +56,12 @@ Example C16_examples :
   outcome (".org 0xFFFFFFFF" ++ nl ++ "nop" ++ nl) = 1%N /\ outcome (".org 0x7fffffff" ++ nl ++ "nop" ++ nl) = 1%N /\
   outcome (".eseg" ++ nl ++ ".byte 4294967312" ++ nl) = 1%N /\ outcome (".dseg" ++ nl ++ ".byte 0x100000000" ++ nl) = 1%N.
 Proof. vm_compute. repeat split; reflexivity. Qed.
+
+(** The size of an expansion is bounded like its depth: a body line that is longer than MAX_MACRO_LINE once the arguments are
+    in it ends the build with an error naming the call - so an argument that mentions itself twice, doubling at every level of
+    a self-calling macro, is refused after some sixteen levels and not after 2^64 characters. *)
+Theorem C16_expansion_size_bounded : forall fuel inc macroses line name ops st body,
+  lookup name macroses = Some body -> too_long (substitute ops body) = true ->
+  macro_expand fuel inc macroses line name ops st = Err (Some line).
+Proof. intros fuel inc macroses line name ops st body H1 H2. unfold macro_expand. rewrite H1. cbv zeta. rewrite H2. reflexivity. Qed.
+Print Assumptions C16_expansion_size_bounded.
